@@ -369,6 +369,8 @@ func checkC03(res *Result) {
 		}
 	}
 	checkHiddenClaimed(res, "C03-R7")
+	res.Rule("C03-R8", "the strip functions see every embedded object: GetType of the object property returns the value for each of its type-valued kinds (shared with C18-R4)")
+	checkTypeAccessorTables(res, "C03-R8", map[string]bool{"object": true})
 	// R5
 	checkKindConsistency(res, p, "C03-R5", "wrapInCreate", 1, false)
 	checkKindConsistency(res, p, "C03-R5", "normalizeRecipients", 2, true)
